@@ -198,6 +198,9 @@ type Query struct {
 
 // TableFor returns the table in the FROM clause of this query
 func TableFor(sql string) (string, error) {
+	if err := checkBackticks(sql); err != nil {
+		return "", err
+	}
 	parsed, err := sqlparser.Parse(sql)
 	if err != nil {
 		return "", err
@@ -211,6 +214,9 @@ func TableFor(sql string) (string, error) {
 
 // Parse parses a SQL statement and returns a corresponding *Query object.
 func Parse(sql string) (*Query, error) {
+	if err := checkBackticks(sql); err != nil {
+		return nil, fmt.Errorf("Error parsing %v: %v", sql, err)
+	}
 	parsed, err := sqlparser.Parse(sql)
 	if err != nil {
 		return nil, fmt.Errorf("Error parsing %v: %v", sql, err)
@@ -220,6 +226,37 @@ func Parse(sql string) (*Query, error) {
 		return nil, fmt.Errorf("Error parsing %v: only SELECT statements are supported, not %v", sql, reflect.TypeOf(parsed))
 	}
 	return parse(stmt)
+}
+
+// checkBackticks makes sure that backtick-quoted identifiers are terminated.
+// The sqlparser's tokenizer loops forever (and grows its buffer without bound)
+// on an unterminated one.
+func checkBackticks(sql string) error {
+	inBacktick := false
+	var inString byte
+	for i := 0; i < len(sql); i++ {
+		c := sql[i]
+		switch {
+		case inBacktick:
+			if c == '`' {
+				inBacktick = false
+			}
+		case inString != 0:
+			if c == '\\' {
+				i++
+			} else if c == inString {
+				inString = 0
+			}
+		case c == '\'' || c == '"':
+			inString = c
+		case c == '`':
+			inBacktick = true
+		}
+	}
+	if inBacktick {
+		return errors.New("unterminated ` quoted identifier")
+	}
+	return nil
 }
 
 func parse(stmt *sqlparser.Select) (*Query, error) {
